@@ -242,6 +242,9 @@ pub struct Gen {
     pub churn: Option<(String, String, u32, u8)>,
     pub churn_done: bool,
     pub hoard_left: u32,
+    /// after hoarding: the hoarder closes position after position (the limit of 10 applies to closed
+    /// positions as well), then withdraws what has expired
+    pub hoard_close_left: u32,
     pub hoard_done: bool,
     pub hoarder: Option<String>,
 }
@@ -266,7 +269,7 @@ impl Gen {
             }
         }
         let pool_rich = prof.w.contains_key("route") && rng.chance(1, 7);
-        Gen { churn: None, churn_done: false, hoard_left: 0, hoard_done: false, hoarder: None, recent: vec![], step_dt: 0, pool_rich, rng, prof, total_steps, emitted: 0, next_id: 0, disabled, draining: false, drain_phase: 0, drain_tried: Default::default(), burst_left: 0, burst_done: false }
+        Gen { churn: None, churn_done: false, hoard_close_left: 0, hoard_left: 0, hoard_done: false, hoarder: None, recent: vec![], step_dt: 0, pool_rich, rng, prof, total_steps, emitted: 0, next_id: 0, disabled, draining: false, drain_phase: 0, drain_tried: Default::default(), burst_left: 0, burst_done: false }
     }
 
     fn uid(&mut self, p: &str) -> String {
@@ -2046,8 +2049,36 @@ impl Gen {
                 self.hoard_left = self.rng.range(11, 15) as u32;
             }
         }
+        let (op, dt) = if matches!(op, Op::Noop) && self.hoard_left == 0 && self.hoard_close_left > 0 && !self.rng.chance(1, 4) {
+            self.hoard_close_left -= 1;
+            let who = self.hoarder.clone().unwrap_or_default();
+            let open: Vec<&mantra_dex_std::farm_manager::Position> = c.obs.positions.iter().filter(|p| p.open && p.receiver.as_str() == who).collect();
+            match self.rng.pick_opt(&open) {
+                Some(p) => {
+                    let hdt = dt.min(self.rng.range(0, 600));
+                    self.step_dt = hdt;
+                    (
+                        Op::Fm {
+                            sender: who,
+                            msg: FmMsg::ManagePosition { action: PositionAction::Close { identifier: p.identifier.clone(), lp_asset: None } },
+                            funds: vec![],
+                        },
+                        hdt,
+                    )
+                }
+                None => {
+                    self.hoard_close_left = 0;
+                    (Op::Noop, dt)
+                }
+            }
+        } else {
+            (op, dt)
+        };
         let (op, dt) = if matches!(op, Op::Noop) && self.hoard_left > 0 {
             self.hoard_left -= 1;
+            if self.hoard_left == 0 && self.rng.chance(1, 2) {
+                self.hoard_close_left = self.rng.range(10, 16) as u32;
+            }
             let hdt = dt.min(self.rng.range(0, 3600));
             self.step_dt = hdt;
             match self.gen_hoard(c) {
